@@ -532,7 +532,7 @@ func init() {
 		ID: "C04", Num: 4,
 		Gen:  genC04,
 		New:  func() Case { return &c04Case{} },
-		Rule: "writer programs of Write/WriteSync/Seek(back to a boundary)/Close over adversarial payloads (nil, empty, marker bytes and proper marker prefixes at the end of a payload, leading zero, sizes within +-2 of a buffer size) x 4 compression types x write/read buffer sizes {1,2,7,16,64,4096,1Mi} x scan window {4,5,7,16,4096} (+ direct I/O when the file system allows); observed: returned offsets, Size, file bytes, sequential read, ReadNextAt at every surviving offset, a random read/skip program, SeekNext from every byte offset (sampled for files > 600 bytes). Non-trivial: >=2 records and one of {nil, empty, marker byte, seek-back, size within +-2 of a buffer}.",
+		Rule: "(writers also get an open file instead of a path, a third of the files is also read through NewFileReaderWithFile; four files of 4 KiB-66 KiB records, one per compression type) writer programs of Write/WriteSync/Seek(back to a boundary)/Close over adversarial payloads (nil, empty, marker bytes and proper marker prefixes at the end of a payload, leading zero, sizes within +-2 of a buffer size) x 4 compression types x write/read buffer sizes {1,2,7,16,64,4096,1Mi} x scan window {4,5,7,16,4096} (+ direct I/O when the file system allows); observed: returned offsets, Size, file bytes, sequential read, ReadNextAt at every surviving offset, a random read/skip program, SeekNext from every byte offset (sampled for files > 600 bytes). Non-trivial: >=2 records and one of {nil, empty, marker byte, seek-back, size within +-2 of a buffer}.",
 		Classify: func(cs Case, msg string) string {
 			// F-C04e: a payload embeds the complete image of a record; SeekNext from an offset before that image (inside the
 			// payload or before the record) stops at the image. Every wrong answer must be exactly that.
